@@ -412,14 +412,19 @@ func runC10(w *core.World, r *core.Report) {
 	}
 
 	// ---- R6 -----------------------------------------------------------------------------------
-	ms := anchor(w, r, "resource", "(*DbResource).mustSafe")
+	ms := mustSafeFn(w)
+	if ms == nil {
+		r.Undecided("R6", "resource safety gate", token.NoPos, "no method of DbResource consults db.Safe and panics")
+	}
 	ng := 0
 	for _, fn := range w.FuncsIn("resource") {
 		for _, c := range core.CallsTo(fn, "db.Db.Get") {
 			ng++
 			cut := core.NewCut()
-			for _, m := range core.CallsTo(fn, "resource.(*DbResource).mustSafe") {
-				cut.AddInstr(m.(ssa.Instruction))
+			if ms != nil {
+				for _, m := range callsToSet(fn, map[*ssa.Function]bool{ms: true}) {
+					cut.AddInstr(m.(ssa.Instruction))
+				}
 			}
 			ok, path := core.MustPass(c.(ssa.Instruction), cut)
 			r.Check(ok, "R6", core.QName(fn)+": db.Get behind mustSafe", c.Pos(), "mustSafe() first", "the resource reads from a store that may be unlocked: "+w.PathString(path))
@@ -440,7 +445,7 @@ func runC10(w *core.World, r *core.Report) {
 				}
 			}
 		}
-		r.Check(ok, "R6", "resource.(*DbResource).mustSafe: refuses unsafe store", ms.Pos(), "panics unless Safe()", "mustSafe no longer refuses a store whose read-only types are unlocked")
+		r.Check(ok, "R6", "resource safety gate: refuses unsafe store", ms.Pos(), "panics unless Safe()", "mustSafe no longer refuses a store whose read-only types are unlocked")
 	}
 
 	// ---- R7 -----------------------------------------------------------------------------------
